@@ -30,3 +30,32 @@ func (db *DB) VerifSyncState() VerifSyncStateView {
 		LastSyncedWALOffset:   db.syncState.lastSyncedWALOffset,
 	}
 }
+
+// VerifSyncStep runs exactly one verify+sync round under the executor, like
+// syncLocked but without the checkpoint policy, so the harness can relate one
+// observed WAL state to the one LTX file produced from it.
+func (db *DB) VerifSyncStep(ctx context.Context, maxSyncWALBytes int64) (synced bool, err error) {
+	if err := db.lockExec(ctx); err != nil {
+		return false, err
+	}
+	defer db.execSem.Release(1)
+
+	exec, err := db.newSyncExecutor(ctx)
+	if err != nil || exec == nil {
+		return false, err
+	}
+	defer db.applySyncExecutor(exec, true)
+
+	if err := db.ensureWALExists(ctx); err != nil {
+		return false, err
+	}
+	result, err := db.verifyAndSyncWithExecutor(ctx, false, exec, maxSyncWALBytes)
+	if err != nil {
+		return false, err
+	}
+	exec.applySyncResult(result)
+	if result.synced {
+		exec.state.syncedSinceCheckpoint = true
+	}
+	return result.synced, nil
+}
